@@ -367,6 +367,8 @@ class Loader:
                 c = _sym_const(v)
                 if c is not None:
                     g[name] = c
+                elif type(v) is not float:
+                    g[name] = float(v)  # a numpy scalar constant: as a plain float it compares with proxies the way a literal does (numpy's reflected ufunc dispatch recurses)
             elif isinstance(v, type) and issubclass(v, float) and v.__module__.startswith("resonaate"):
                 g[name] = self.float_box(f"{v.__module__}:{v.__qualname__}")  # JulianDate / ScenarioTime: boxed, real dunders
             elif isinstance(v, (dict, tuple, list)) and name.isupper():
